@@ -147,6 +147,15 @@ class Builtin:
 
 
 @dataclass(eq=False)
+class SuperRef:
+    cls: str
+    recv: Any
+
+    def key(self):
+        return ('super', self.cls, vkey(self.recv))
+
+
+@dataclass(eq=False)
 class BoundMethod:
     recv: Any
     name: str
@@ -1184,6 +1193,19 @@ class Interp:
         r = self.hooks.attr(self, obj, name, node)
         if r is not NotImplemented:
             return r
+        if isinstance(obj, SuperRef):
+            mro = self.repo.mro(obj.recv.cls if isinstance(obj.recv, Obj) else (obj.recv.qual if isinstance(obj.recv, ClassRef) else obj.cls))
+            after = mro[mro.index(obj.cls) + 1:] if obj.cls in mro else mro[1:]
+            for c in after:
+                ci = self.repo.classes.get(c)
+                if ci and name in ci.methods:
+                    m = ci.methods[name]
+                    if 'staticmethod' in m.decorators:
+                        return FuncRef(m, module=m.module)
+                    return FuncRef(m, obj.recv, True, module=m.module)
+            if name == '__init__':
+                return Builtin('object.__init__')
+            raise Unsupported(f'super().{name} not found on the repo MRO of {obj.cls}')
         if isinstance(obj, Obj):
             if name in obj.fields:
                 return obj.fields[name]
@@ -1399,6 +1421,8 @@ class Interp:
             if callee.name == 'collections.namedtuple' and len(args) == 2 and isinstance(args[0], str) and is_concrete(args[1]):
                 fields = args[1].replace(',', ' ').split() if isinstance(args[1], str) else list(args[1])
                 return NTClass(args[0], tuple(fields))
+            if callee.name == 'itertools.chain' and all(isinstance(a, (list, tuple)) for a in args) and not kwargs:
+                return [x for a in args for x in a]  # concatenation of sequences of known length
             if callee.name in PURE_STDLIB and all(is_concrete(a) for a in args) and not kwargs:
                 try:
                     return PURE_STDLIB[callee.name](*args)
@@ -1551,6 +1575,8 @@ class Interp:
     def call_builtin(self, name: str, args: List[Any], kwargs: Dict[str, Any], node, env=None) -> Any:
         if name in BUILTIN_EXC:
             return ExcVal(name, tuple(args))
+        if name == 'super' and env is not None:
+            return self._super(args, env, node)
         h = getattr(self, 'b_' + name.replace('.', '_'), None)
         if h is not None:
             return h(args, kwargs, node)
@@ -1831,6 +1857,31 @@ class Interp:
 
     def b_super(self, args, kwargs, node):
         raise Unsupported('super()')
+
+    def _super(self, args, env, node):
+        """super() / super(C, self): a reference that resolves attributes on the MRO after the class."""
+        e = env
+        cls = None
+        while e is not None and cls is None:
+            cls = e.cls
+            e = e.parent
+        if len(args) == 2 and isinstance(args[0], ClassRef):
+            start, me = args[0].qual, args[1]
+        else:
+            if cls is None:
+                raise Unsupported('super() outside a class')
+            start = cls.qualname
+            me = None
+            e = env
+            while e is not None and me is None:
+                for nm in ('self', 'cls', 'mcs'):
+                    if nm in e.vars:
+                        me = e.vars[nm]
+                        break
+                e = e.parent
+            if me is None:
+                raise Unsupported('super(): receiver not found')
+        return SuperRef(start, me)
 
     def b_cast(self, args, kwargs, node):
         return args[1]
